@@ -320,7 +320,47 @@ pub fn run(tier: &str) -> i32 {
             }
         }
     }
-    rep.sub("collision", "for 1..=4 players, every player slot, both card slots and each of the five board cards: a hole card on the board must give no showdown", n_e, n_e, true, json!({}));
+    // ... and on paired / trips / two-pair boards given in EVERY order (equal ranks not in suit order)
+    {
+        let perms5: Vec<[usize; 5]> = {
+            let mut v = vec![];
+            let idx = [0usize, 1, 2, 3, 4];
+            fn rec(cur: &mut Vec<usize>, idx: &[usize; 5], out: &mut Vec<[usize; 5]>) {
+                if cur.len() == 5 {
+                    out.push([cur[0], cur[1], cur[2], cur[3], cur[4]]);
+                    return;
+                }
+                for i in idx {
+                    if !cur.contains(i) {
+                        cur.push(*i);
+                        rec(cur, idx, out);
+                        cur.pop();
+                    }
+                }
+            }
+            rec(&mut vec![], &idx, &mut v);
+            v
+        };
+        for bt in ["7d7sKh2s9c", "7c7d7sKh2s", "7d7sKhKc2s", "AsAhAdAcKs"] {
+            let base = b5(bt);
+            let free: Vec<u8> = (0..52u8).filter(|x| !base.contains(x)).collect();
+            for p in &perms5 {
+                let board = [base[p[0]], base[p[1]], base[p[2]], base[p[3]], base[p[4]]];
+                for bi in 0..5 {
+                    for (other, first) in [(free[3], true), (free[40], false)] {
+                        let hole = if first { (board[bi], other) } else { (other, board[bi]) };
+                        n_e += 1;
+                        for holes in [vec![hole], vec![(free[10], free[11]), hole]] {
+                            if let Some(b) = check_one(&m, &all, &board, &holes, 1.0) {
+                                viol(&mut rep, "collision", &board, &holes, b);
+                            }
+                        }
+                    }
+                }
+            }
+        }
+    }
+    rep.sub("collision", "for 1..=4 players, every player slot, both card slots and each of the five board cards: a hole card on the board must give no showdown; and the same on a paired, a trips, a two-pair and a quads board given in all 120 orders", n_e, n_e, true, json!({}));
 
 
     // (f) same two ranks in every suit combination, on boards with two, three, four and five cards of one suit
